@@ -279,6 +279,7 @@ func blockOnListChange(ctx *cmdContext, keyName string, timeoutNs int64, op func
 		op,
 		func() string { return fmt.Sprintf("key '%s'", keyName) },
 		func() *wakeSignal { return ctx.dsc.ds.enterListBlock(keyName) },
+		[]string{keyName},
 	)
 }
 
@@ -289,6 +290,7 @@ func blockOnListChangeMultiKey(ctx *cmdContext, keyNames []string, timeoutNs int
 		op,
 		func() string { return fmt.Sprintf("keys %s", keyNames) },
 		func() *wakeSignal { return ctx.dsc.ds.enterListMultiBlock(keyNames) },
+		keyNames,
 	)
 }
 
@@ -298,6 +300,7 @@ func blockOnListChangeWorker(
 	op func() (output respValue),
 	keyNameStr func() string,
 	blockFn func() *wakeSignal,
+	keyNames []string,
 ) (output respValue) {
 
 	// initial non blocking call
@@ -371,9 +374,9 @@ func blockOnListChangeWorker(
 		}
 		// a different client obtained the list element before this client could, so try again:
 		// the wake-up removed this client from the wait lists, so it has to register anew (and
-		// look once more, as on entry) or later pushes would not wake it
-		ctx.dsc.ds.leaveListBlock(ws)
-		ws = blockFn()
+		// look once more, as on entry) or later pushes would not wake it; it keeps its place
+		// among the waiting clients
+		ctx.dsc.ds.reenterListBlock(ws, keyNames)
 		output = op()
 		if output.data != nil {
 			return
